@@ -172,6 +172,9 @@ pub struct ExtraFile {
     pub bytes: Bytes,
     #[serde(default)]
     pub is_dir: bool,
+    /// a symbolic link with this target (dangling, self-referential, or to a directory)
+    #[serde(default, skip_serializing_if = "Option::is_none")]
+    pub symlink_to: Option<String>,
 }
 
 #[derive(Clone, Serialize, Deserialize, PartialEq, Eq, Debug, Hash, Default)]
@@ -185,6 +188,9 @@ pub struct Layout {
     /// 1 = zeros, 2 = another network's magic, 3 = per-block garbage
     #[serde(default, skip_serializing_if = "is_zero_u8")]
     pub magic_mode: u8,
+    /// xor.dat is a symbolic link (absolute target in the sibling directory)
+    #[serde(default, skip_serializing_if = "is_false")]
+    pub xor_symlink: bool,
 }
 
 #[derive(Clone, Serialize, Deserialize, PartialEq, Eq, Debug, Hash)]
@@ -233,6 +239,14 @@ pub struct IndexOpts {
     /// 3 = garbage derived from the hash
     #[serde(default, skip_serializing_if = "is_zero_u8")]
     pub ntx_mode: u8,
+    /// (height, 32-byte hash): the index key of that active block is this hash instead of the hash of
+    /// the stored header (a header that differs from the indexed one outside prev/merkle)
+    #[serde(default, skip_serializing_if = "Vec::is_empty")]
+    pub key_overrides: Vec<(u64, Bytes)>,
+    /// write Bitcoin Core's per-file info records ('f' + file number) and the last-file record ('l'),
+    /// computed from every block stored in each file (stale ones included, as Core counts them)
+    #[serde(default, skip_serializing_if = "is_false")]
+    pub file_info: bool,
 }
 fn is_zero_u64(x: &u64) -> bool {
     *x == 0
